@@ -502,12 +502,20 @@ class Walker:
         self.env[name] = ("let", name, ev.idx, value)
 
     _in_loop = 0
+    _tmp_counter = 0
 
     def assign_target(self, t: ast.AST, value: Term, node: ast.AST) -> None:
         if isinstance(t, ast.Name):
             self.bind(t.id, value, node)
         elif isinstance(t, (ast.Tuple, ast.List)):
             sv = T.strip(value)
+            if sv[0] == "call" and ((sv[1][0] == "attr" and sv[1][2] in _TAKERS) or (sv[1][0] == "glob" and sv[1][1].rsplit(".", 1)[-1] in _TAKERS)):
+                # unpacking something that was taken out of a container: name it once
+                self._tmp_counter += 1
+                tmp = f"$taken{self._tmp_counter}"
+                self.emit("bind", ("bind", T.var(tmp), value), node)
+                value = T.var(tmp)
+                sv = value
             for i, e in enumerate(t.elts):
                 if sv[0] == "tuple" and len(sv[1]) == len(t.elts) and not any(x[0] == "star" for x in sv[1]):
                     self.assign_target(e, value[1][i] if value[0] == "tuple" else sv[1][i], node)
